@@ -101,7 +101,8 @@ theorem seek_then_position (f : File) (unc : Codec) (hc : CodecOK unc) (m : MR) 
 before that commit, for which `sw`/`ConsIno` describe the images on which it was sound (`ConsIno` is *no condition
 at all* when `kw = true`).  `sfix` selects the stream code: `false` as it is in /repo (D33, see
 `Sqfs/Witness/C10.lean`), `true` with `fixes/C10-stream-frag-fail.patch`; the theorems below hold for both, because
-D33 lives in the stream object, not in the reader's caches.  A history is any sequence of
+D33 lives in the stream object, not in the reader's caches.  A history (`DataReader.OpX`, run by `runX`; the read-only
+`Op`/`run` that C19 uses embed into it: `DataReader.runX_embed`) is any sequence of
 `sqfs_data_reader_read`, `sqfs_data_reader_get_fragment`, stream `get_buffered_data` calls (on streams in any
 state) and `sqfs_data_reader_load_fragment_table` reloads.  `sqfs_data_reader_get_block` does not use the reader
 object beyond `block_size`: `DataReader.getBlockApi` has no reader argument. -/
@@ -120,23 +121,23 @@ theorem data_coherent_read (kw : Bool) (f : File) (unc : Codec) (sw : Nat → Na
 
 /-- every data reader reachable by a history is coherent -/
 theorem data_coherent_run (kw sfix : Bool) (f : File) (unc : Codec) (sw : Nat → Nat) (hc : CodecOK unc) (bs : Nat)
-    (tbl : List (Nat × Nat)) (h : List DataReader.Op) (hh : DataReader.OpsCons kw sw h) :
-    DataReader.DCoh kw f unc sw (DataReader.run kw sfix f unc (DataReader.fresh bs tbl) h) :=
+    (tbl : List (Nat × Nat)) (h : List DataReader.OpX) (hh : DataReader.OpsCons kw sw h) :
+    DataReader.DCoh kw f unc sw (DataReader.runX kw sfix f unc (DataReader.fresh bs tbl) h) :=
   (DataReader.run_dcoh hc sfix h _ (DataReader.fresh_dcoh kw f unc sw bs tbl) hh).1
 
 /-- **Main theorem (data reader).**  After any history, each entry point that goes through a cache answers
 what its cacheless reference computes from the image, the fragment table currently loaded and the query alone:
 positional read, `get_fragment`, and a stream's `get_buffered_data` (answer and new stream state). -/
 theorem data_api_eq_cacheless (kw sfix : Bool) (f : File) (unc : Codec) (sw : Nat → Nat) (hc : CodecOK unc)
-    (bs : Nat) (tbl : List (Nat × Nat)) (h : List DataReader.Op) (hh : DataReader.OpsCons kw sw h) :
-    let D := DataReader.run kw sfix f unc (DataReader.fresh bs tbl) h
+    (bs : Nat) (tbl : List (Nat × Nat)) (h : List DataReader.OpX) (hh : DataReader.OpsCons kw sw h) :
+    let D := DataReader.runX kw sfix f unc (DataReader.fresh bs tbl) h
     D.blockSize = bs ∧
     (∀ ino o n, DataReader.ConsIno kw sw ino → (DataReader.read kw f unc D ino o n).1 = DataReader.readSpec f unc bs D.tbl ino o n) ∧
     (∀ ino, (DataReader.getFragment f unc D ino).1 = DataReader.getFragmentSpec f unc bs D.tbl ino) ∧
     (∀ s, ((DataReader.streamGet sfix f unc D s).1, (DataReader.streamGet sfix f unc D s).2.1) =
             DataReader.streamGetSpec sfix f unc bs D.tbl s) := by
   obtain ⟨hd, hb⟩ := DataReader.run_dcoh hc sfix h _ (DataReader.fresh_dcoh kw f unc sw bs tbl) hh
-  have hb' : (DataReader.run kw sfix f unc (DataReader.fresh bs tbl) h).blockSize = bs := hb
+  have hb' : (DataReader.runX kw sfix f unc (DataReader.fresh bs tbl) h).blockSize = bs := hb
   refine ⟨hb', fun ino o n hi => ?_, fun ino => ?_, fun s => ?_⟩
   · have := (DataReader.read_spec hc hd ino hi o n).1
     rw [hb'] at this; exact this
@@ -149,8 +150,8 @@ theorem data_api_eq_cacheless (kw sfix : Bool) (f : File) (unc : Codec) (sw : Na
 ones included, for arbitrary inodes and streams: a used reader answers like a reader created now (which loads the
 fragment table the used reader has loaded last) -/
 theorem data_history_independent (sfix : Bool) (f : File) (unc : Codec) (hc : CodecOK unc)
-    (bs : Nat) (tbl : List (Nat × Nat)) (h : List DataReader.Op) :
-    let D := DataReader.run true sfix f unc (DataReader.fresh bs tbl) h
+    (bs : Nat) (tbl : List (Nat × Nat)) (h : List DataReader.OpX) :
+    let D := DataReader.runX true sfix f unc (DataReader.fresh bs tbl) h
     let F := DataReader.fresh bs D.tbl
     (∀ ino o n, (DataReader.read true f unc D ino o n).1 = (DataReader.read true f unc F ino o n).1) ∧
     (∀ ino, (DataReader.getFragment f unc D ino).1 = (DataReader.getFragment f unc F ino).1) ∧
@@ -170,9 +171,9 @@ theorem data_history_independent (sfix : Bool) (f : File) (unc : Codec) (hc : Co
 /-- the code before 36fa767 (cache keyed by location only), on images whose inodes are consistent with one
 location ↦ size word function (kept for the record: D21) -/
 theorem data_history_independent_written (f : File) (unc : Codec) (sw : Nat → Nat) (hc : CodecOK unc)
-    (bs : Nat) (tbl : List (Nat × Nat)) (h : List DataReader.Op) (hh : DataReader.OpsCons false sw h)
+    (bs : Nat) (tbl : List (Nat × Nat)) (h : List DataReader.OpX) (hh : DataReader.OpsCons false sw h)
     (ino : DataReader.Inode) (hi : DataReader.ConsIno false sw ino) (o n : Nat) :
-    let D := DataReader.run false false f unc (DataReader.fresh bs tbl) h
+    let D := DataReader.runX false false f unc (DataReader.fresh bs tbl) h
     (DataReader.read false f unc D ino o n).1 = (DataReader.read false f unc (DataReader.fresh bs D.tbl) ino o n).1 := by
   obtain ⟨_, h1, _, _⟩ := data_api_eq_cacheless false false f unc sw hc bs tbl h hh
   intro D
